@@ -168,9 +168,48 @@ func scanOutPath(c *core.Ctx) []ob {
 		if outP == nil {
 			return
 		}
+		// locals that are views of the receiver's data: `c0OutQP := ringqp.Poly{Q: opOut.Value[0], P: buff}`, `c0 := opOut.Value[0]`
+		views := map[types.Object]bool{}
+		ast.Inspect(fd.Body, func(x ast.Node) bool {
+			// `for i, out := range opOut.Value`: the value variable is one of the receiver's polynomials
+			if rs, ok := x.(*ast.RangeStmt); ok && rs.Value != nil && rs.Tok == token.DEFINE {
+				if vid, ok := rs.Value.(*ast.Ident); ok && info.Defs[vid] != nil {
+					if sel, ok := unparen(rs.X).(*ast.SelectorExpr); ok && sel.Sel.Name == "Value" {
+						if rid := rootIdent(sel.X); rid != nil && (info.Uses[rid] == types.Object(outP) || views[info.Uses[rid]]) {
+							views[info.Defs[vid]] = true
+						}
+					}
+				}
+				return true
+			}
+			as, ok := x.(*ast.AssignStmt)
+			if !ok || as.Tok != token.DEFINE || len(as.Lhs) != len(as.Rhs) {
+				return true
+			}
+			for i, l := range as.Lhs {
+				id, ok := l.(*ast.Ident)
+				if !ok || info.Defs[id] == nil {
+					continue
+				}
+				if t := info.TypeOf(as.Rhs[i]); t != nil {
+					if _, basic := t.Underlying().(*types.Basic); basic {
+						continue
+					}
+				}
+				ast.Inspect(as.Rhs[i], func(y ast.Node) bool {
+					if sel, ok := y.(*ast.SelectorExpr); ok && sel.Sel.Name == "Value" {
+						if rid := rootIdent(sel.X); rid != nil && (info.Uses[rid] == types.Object(outP) || views[info.Uses[rid]]) {
+							views[info.Defs[id]] = true
+						}
+					}
+					return true
+				})
+			}
+			return true
+		})
 		rooted := func(e ast.Expr) bool {
 			id := rootIdent(e)
-			return id != nil && info.Uses[id] == types.Object(outP)
+			return id != nil && (info.Uses[id] == types.Object(outP) || views[info.Uses[id]])
 		}
 		// does the function hand the metadata of an operand to the receiver?
 		metaFromOperand := false
@@ -209,6 +248,12 @@ func scanOutPath(c *core.Ctx) []ob {
 					}
 					for _, a := range v.Args {
 						if rooted(a) {
+							// the element, one of its polynomials or a view of them; not a number read from it (opOut.Level())
+							if t := info.TypeOf(a); t != nil {
+								if _, basic := t.Underlying().(*types.Basic); basic {
+									continue
+								}
+							}
 							w = true
 						}
 					}
@@ -584,6 +629,12 @@ func scanOutLevel1(c *core.Ctx) []ob {
 			p := sig.Params().At(i)
 			params[p] = true
 			if p.Name() == "opOut" && isMetaCarrier(p.Type()) {
+				// a list of receivers (`opOut []*rlwe.Ciphertext`) is prepared element by element by the callee each
+				// element is handed to, at the level that callee computes
+				switch p.Type().Underlying().(type) {
+				case *types.Slice, *types.Map:
+					continue
+				}
 				outP = p
 			}
 		}
@@ -621,10 +672,42 @@ func scanOutLevel1(c *core.Ctx) []ob {
 				if lv == nil {
 					continue
 				}
+				// the level and the locals computed from it (`newLevel := levelIn - nbRescales`)
+				lvSet := map[types.Object]bool{lv: true}
+				for changed := true; changed; {
+					changed = false
+					ast.Inspect(fd.Body, func(y ast.Node) bool {
+						a2, ok := y.(*ast.AssignStmt)
+						if !ok || a2.Tok != token.DEFINE || len(a2.Lhs) != len(a2.Rhs) {
+							return true
+						}
+						for k, l2 := range a2.Lhs {
+							lid, ok := l2.(*ast.Ident)
+							if !ok || info.Defs[lid] == nil || lvSet[info.Defs[lid]] {
+								continue
+							}
+							if t := info.TypeOf(a2.Rhs[k]); t == nil || !isIntType(t) {
+								continue
+							}
+							hit := false
+							ast.Inspect(a2.Rhs[k], func(z ast.Node) bool {
+								if zid, ok := z.(*ast.Ident); ok && lvSet[info.Uses[zid]] {
+									hit = true
+								}
+								return !hit
+							})
+							if hit {
+								lvSet[info.Defs[lid]] = true
+								changed = true
+							}
+						}
+						return true
+					})
+				}
 				mentionsLv := func(e ast.Node) bool {
 					f := false
 					ast.Inspect(e, func(y ast.Node) bool {
-						if yid, ok := y.(*ast.Ident); ok && info.Uses[yid] == lv {
+						if yid, ok := y.(*ast.Ident); ok && lvSet[info.Uses[yid]] {
 							f = true
 						}
 						return !f
@@ -635,6 +718,36 @@ func scanOutLevel1(c *core.Ctx) []ob {
 					f := false
 					ast.Inspect(e, func(y ast.Node) bool {
 						if yid, ok := y.(*ast.Ident); ok && info.Uses[yid] == types.Object(outP) {
+							f = true
+						}
+						return !f
+					})
+					return f
+				}
+				// locals holding opOut's own level (`if lvlOut := opOut.Level(); lvlOut < level`)
+				outLevels := map[types.Object]bool{}
+				ast.Inspect(fd.Body, func(y ast.Node) bool {
+					if a2, ok := y.(*ast.AssignStmt); ok && a2.Tok == token.DEFINE && len(a2.Lhs) == len(a2.Rhs) {
+						for k, r := range a2.Rhs {
+							cl, ok := unparen(r).(*ast.CallExpr)
+							if !ok || len(cl.Args) != 0 {
+								continue
+							}
+							if s2, ok := unparen(cl.Fun).(*ast.SelectorExpr); ok && (s2.Sel.Name == "Level" || s2.Sel.Name == "LevelQ") {
+								if rid := rootIdent(s2.X); rid != nil && info.Uses[rid] == types.Object(outP) {
+									if lid, ok := a2.Lhs[k].(*ast.Ident); ok && info.Defs[lid] != nil {
+										outLevels[info.Defs[lid]] = true
+									}
+								}
+							}
+						}
+					}
+					return true
+				})
+				mentionsOutLevel := func(e ast.Node) bool {
+					f := false
+					ast.Inspect(e, func(y ast.Node) bool {
+						if yid, ok := y.(*ast.Ident); ok && outLevels[info.Uses[yid]] {
 							f = true
 						}
 						return !f
@@ -682,6 +795,9 @@ func scanOutLevel1(c *core.Ctx) []ob {
 						case token.EQL, token.NEQ, token.LSS, token.GTR, token.LEQ, token.GEQ:
 							if mentionsOut(v) && (mentionsLv(v) || strings.Contains(exprString(v), exprString(as.Rhs[i]))) && strings.Contains(exprString(v), "Level") {
 								applied = "compared at " + c.Rel(v.Pos())
+							}
+							if mentionsOutLevel(v) && mentionsLv(v) {
+								applied = "compared (through a local holding opOut's level) at " + c.Rel(v.Pos())
 							}
 						}
 					}
